@@ -59,6 +59,11 @@ return {
   rawget = function(t, k) return rawget(t, k) end,
   next = function(t, k) return next(t, k) end,
   len = function(t) return #t end,
+  tinsert = function(t, v) table.insert(t, v) end,
+  tinsertp = function(t, p, v) table.insert(t, p, v) end,
+  tremove = function(t) return (table.remove(t)) end,
+  tremovep = function(t, p) return (table.remove(t, p)) end,
+  tunpack = function(t) return select("#", table.unpack(t)), table.unpack(t) end,
   pairs = function(t, visit, after)
     for k, v in pairs(t) do
       local m = table.pack(visit(k, v))
@@ -103,7 +108,7 @@ func newEnv() *env {
 		fatal("cannot run helpers: " + msg)
 	}
 	ht := res[0].AsTable()
-	for _, n := range []string{"set", "rawset", "get", "rawget", "next", "len", "pairs", "pairsraw", "twins", "upv", "f1", "f2"} {
+	for _, n := range []string{"set", "rawset", "get", "rawget", "next", "len", "tinsert", "tinsertp", "tremove", "tremovep", "tunpack", "pairs", "pairsraw", "twins", "upv", "f1", "f2"} {
 		e.fn[n] = ht.Get(rt.StringValue(n))
 	}
 	// reference values used as identity keys; tokens are stable across processes
@@ -180,9 +185,28 @@ func (e *env) dec(s string) rt.Value {
 	return v
 }
 
+// edge values: falsy-looking, zero-like and NaN values are values like any other (only nil removes)
+var edgeValues = []rt.Value{
+	rt.BoolValue(false), rt.IntValue(0), rt.FloatValue(0), rt.FloatValue(math.Copysign(0, -1)), rt.StringValue(""),
+	rt.FloatValue(math.NaN()), rt.BoolValue(true), rt.StringValue("false"), rt.BoolValue(false), rt.StringValue("nil"),
+}
+
+// fresh returns the value to assign next: a fresh integer, and every fourth time an edge value.
 func (e *env) fresh() rt.Value {
 	e.ctr++
+	if e.ctr%4 == 0 {
+		return edgeValues[int(e.ctr/4)%len(edgeValues)]
+	}
 	return rt.IntValue(e.ctr)
+}
+
+// value decodes a V token of a replay script: `v` and integers stand for "a fresh value"
+func (e *env) value(tok string) rt.Value {
+	if tok == "v" || tok[0] == 'i' {
+		e.ctr++
+		return rt.IntValue(e.ctr)
+	}
+	return e.dec(tok)
 }
 
 func fatal(msg string) {
@@ -205,7 +229,7 @@ type kase struct {
 func (e *env) newCase(id string, leg string, descr string) *kase {
 	c := &kase{e: e, leg: leg, t: rt.NewTable()}
 	c.tv = rt.TableValue(c.t)
-	if leg == "meta" {
+	if strings.HasPrefix(leg, "meta") {
 		meta := rt.NewTable()
 		log := func(ret bool) *rt.GoFunction {
 			return rt.NewGoFunction(func(t *rt.Thread, gc *rt.GoCont) (rt.Cont, error) {
@@ -217,8 +241,22 @@ func (e *env) newCase(id string, leg string, descr string) *kase {
 				return next, nil
 			}, "log", 3, false)
 		}
-		meta.Set(rt.StringValue("__newindex"), rt.FunctionValue(log(false)))
-		meta.Set(rt.StringValue("__index"), rt.FunctionValue(log(true)))
+		switch leg {
+		case "meta": // handlers are functions
+			meta.Set(rt.StringValue("__newindex"), rt.FunctionValue(log(false)))
+			meta.Set(rt.StringValue("__index"), rt.FunctionValue(log(true)))
+		case "metachain": // handlers are tables whose own metatables end in the logging functions
+			cls, cls2 := rt.NewTable(), rt.NewTable()
+			m1, m2 := rt.NewTable(), rt.NewTable()
+			m1.Set(rt.StringValue("__index"), rt.FunctionValue(log(true)))
+			m2.Set(rt.StringValue("__newindex"), rt.FunctionValue(log(false)))
+			cls.SetMetatable(m1)
+			cls2.SetMetatable(m2)
+			meta.Set(rt.StringValue("__index"), rt.TableValue(cls))
+			meta.Set(rt.StringValue("__newindex"), rt.TableValue(cls2))
+		default: // metaplain: a metatable with neither __index nor __newindex
+			meta.Set(rt.StringValue("__name"), rt.StringValue("plain"))
+		}
 		c.t.SetMetatable(meta)
 	}
 	hlib.Out.Flush() // a hang in the table code must leave the case that hangs on stdout
@@ -395,6 +433,71 @@ func (c *kase) L() {
 		n = res[0].AsInt()
 	}
 	hlib.Emit("L", "=", strconv.FormatInt(n, 10))
+}
+
+// TI / TP / TR / TQ / TU: table.insert, table.remove, table.unpack from compiled Lua
+func (c *kase) TI(v rt.Value) {
+	out := "ok"
+	if class, _, _ := c.lua("tinsert", c.tv, v); class != hlib.OK {
+		out = "err"
+	}
+	hlib.Emit("TI", c.e.enc(v), "=", out)
+	c.state()
+}
+
+func (c *kase) TP(pos int64, v rt.Value) {
+	out := "ok"
+	if class, _, _ := c.lua("tinsertp", c.tv, rt.IntValue(pos), v); class != hlib.OK {
+		out = "err"
+	}
+	hlib.Emit("TP", strconv.FormatInt(pos, 10), c.e.enc(v), "=", out)
+	c.state()
+}
+
+func (c *kase) TR() {
+	class, res, _ := c.lua("tremove", c.tv)
+	out := "err"
+	if class == hlib.OK {
+		var v rt.Value
+		if len(res) > 0 {
+			v = res[0]
+		}
+		out = c.e.enc(v)
+	}
+	hlib.Emit("TR", "=", out)
+	c.state()
+}
+
+func (c *kase) TQ(pos int64) {
+	class, res, _ := c.lua("tremovep", c.tv, rt.IntValue(pos))
+	out := "err"
+	if class == hlib.OK {
+		var v rt.Value
+		if len(res) > 0 {
+			v = res[0]
+		}
+		out = c.e.enc(v)
+	}
+	hlib.Emit("TQ", strconv.FormatInt(pos, 10), "=", out)
+	c.state()
+}
+
+func (c *kase) TU() {
+	class, res, _ := c.lua("tunpack", c.tv)
+	parts := []string{"TU", "="}
+	if class != hlib.OK || len(res) == 0 {
+		parts = append(parts, "err")
+	} else {
+		n := int(res[0].AsInt())
+		for i := 0; i < n; i++ {
+			var v rt.Value
+			if 1+i < len(res) {
+				v = res[1+i]
+			}
+			parts = append(parts, c.e.enc(v))
+		}
+	}
+	hlib.Emit(parts...)
 }
 
 // X: t[k] = v through SetIndex with a logging __newindex
@@ -1065,8 +1168,8 @@ func (g *gen) directed(leg string) {
 
 func (g *gen) meta() {
 	e := g.e
-	for round := 0; round < 6; round++ {
-		c := e.newCase(g.id("m"), "meta", "index-newindex")
+	for round := 0; round < 9; round++ {
+		c := e.newCase(g.id("m"), []string{"meta", "metachain", "metaplain"}[round%3], "index-newindex")
 		names := []string{"small", "str", "fint", "frac", "bool"}
 		for i := 0; i < 40; i++ {
 			x := g.rng.Below(100)
@@ -1087,6 +1190,73 @@ func (g *gen) meta() {
 		c.X(rt.NilValue, e.fresh())
 		c.X(fv(math.NaN()), e.fresh())
 		c.I(rt.NilValue)
+		c.probe(nil)
+	}
+	// every kind of value under every kind of key, read back through Index with the metamethods
+	// observing: a field holding false / 0 / "" / NaN is present
+	keys := []rt.Value{iv(1), iv(2), iv(40), fv(2.5), sv("enabled"), rt.BoolValue(true), rt.BoolValue(false), e.refs[0].v, fv(3)}
+	vals := append([]rt.Value{iv(7), sv("x"), fv(1.5), e.refs[1].v}, edgeValues...)
+	for _, leg := range []string{"meta", "metachain", "metaplain"} {
+		for vi, v := range vals {
+			c := e.newCase(g.id("m"), leg, "value-kinds")
+			for _, k := range keys {
+				c.I(k)    // absent: __index fires (when there is one)
+				c.X(k, v) // absent: __newindex fires (when there is one); the table stays empty unless plain
+				c.S(k, v) // raw assignment
+				c.I(k)    // present, also when v is false
+				c.G(k)    // rawget agrees
+				c.X(k, vals[(vi+5)%len(vals)]) // present: raw assignment, no __newindex
+				c.I(k)
+				c.X(k, rt.BoolValue(false)) // false onto an existing field
+				c.I(k)
+			}
+			c.probe(keys)
+			for _, k := range keys[:4] {
+				c.X(k, rt.NilValue) // present: cleared raw
+				c.I(k)
+				c.X(k, rt.BoolValue(false)) // absent again: __newindex
+			}
+			c.probe(keys)
+		}
+	}
+}
+
+// seqLib: table.insert / table.remove / table.unpack and # over sequences that contain false
+func (g *gen) seqLib(leg string) {
+	e := g.e
+	elems := []rt.Value{rt.BoolValue(false), iv(10), rt.BoolValue(false), sv(""), iv(0), rt.BoolValue(false), fv(math.NaN()), rt.BoolValue(true)}
+	for n := 0; n <= len(elems); n++ {
+		c := e.newCase(g.id("q"), leg, "table-lib-seq-"+strconv.Itoa(n))
+		for i := 0; i < n; i++ {
+			if i%2 == 0 {
+				c.TI(elems[i])
+			} else {
+				c.S(iv(int64(i+1)), elems[i])
+			}
+			c.L()
+		}
+		c.TU()
+		c.TP(int64(n+1), rt.BoolValue(false))
+		c.TP(1, rt.BoolValue(false))
+		c.TP(int64(n/2+1), sv("mid"))
+		c.TP(0, iv(1))
+		c.TP(int64(n+5), iv(1))
+		c.L()
+		c.TU()
+		c.probe(nil)
+		c.TQ(1)
+		c.TQ(int64(n/2 + 1))
+		c.TR()
+		c.TR()
+		c.L()
+		c.TU()
+		for i := 0; i < n+2; i++ {
+			c.TR()
+		}
+		c.TR()
+		c.TQ(0)
+		c.L()
+		c.TU()
 		c.probe(nil)
 	}
 }
@@ -1119,6 +1289,8 @@ func generate(tier string) {
 	for _, leg := range legs {
 		g.directed(leg)
 	}
+	g.seqLib("lua")
+	g.seqLib("metaplain")
 	g.nearCollisions("go")
 	g.nearCollisions("lua")
 	if thorough {
@@ -1178,16 +1350,10 @@ func replay() {
 		}
 		switch f[0] {
 		case "S":
-			v := e.dec(f[len(f)-1])
-			if !v.IsNil() {
-				v = e.fresh()
-			}
+			v := e.value(f[len(f)-1])
 			c.S(e.dec(f[1]), v)
 		case "R":
-			v := e.dec(f[len(f)-1])
-			if !v.IsNil() {
-				v = e.fresh()
-			}
+			v := e.value(f[len(f)-1])
 			if c.leg == "go" {
 				c.R(e.dec(f[1]), v)
 			} else {
@@ -1200,13 +1366,22 @@ func replay() {
 		case "L":
 			c.L()
 		case "X":
-			v := e.dec(f[len(f)-1])
-			if !v.IsNil() {
-				v = e.fresh()
-			}
+			v := e.value(f[len(f)-1])
 			c.X(e.dec(f[1]), v)
 		case "I":
 			c.I(e.dec(f[1]))
+		case "TI":
+			c.TI(e.value(f[1]))
+		case "TP":
+			pos, _ := strconv.ParseInt(f[1], 10, 64)
+			c.TP(pos, e.value(f[2]))
+		case "TR":
+			c.TR()
+		case "TQ":
+			pos, _ := strconv.ParseInt(f[1], 10, 64)
+			c.TQ(pos)
+		case "TU":
+			c.TU()
 		case "T": // traverse from nil to the end without updates
 			c.traverse(1 << 20)
 		case "TA", "TC": // traverse; re-assign (TA) or clear (TC) every visited field
